@@ -34,3 +34,11 @@ Proof.
   intros ca skip k pe. rewrite standard_audit_phases. unfold audit_conns, rate_conns.
   destruct ca; destruct skip; cbn [fst snd orb]; split; try (right; reflexivity); left; cbn; tauto.
 Qed.
+
+(* the translator found the source shape it extracts rate_check_arguments from (otherwise gen/Tables.v carries fallback values and this lemma fails) *)
+Lemma tie_extract_ok_rate_check_arguments : extract_ok_rate_check_arguments = true.
+Proof. reflexivity. Qed.
+
+(* the translator found the source shape it extracts send_kexinit_defaults from (otherwise gen/Tables.v carries fallback values and this lemma fails) *)
+Lemma tie_extract_ok_send_kexinit_defaults : extract_ok_send_kexinit_defaults = true.
+Proof. reflexivity. Qed.
